@@ -20,7 +20,8 @@ pub enum Op {
     Reset,
     /// trait-level reset (digest::Reset), when available
     TraitReset,
-    /// trait-level resetting finalizers (FixedOutputReset::finalize_fixed_reset, ExtendableOutputReset::finalize_xof_reset, Mac::finalize_reset)
+    /// trait-level resetting finalizers: k % 8 selects finalize_fixed_reset / finalize_xof_reset / Mac::finalize_reset / finalize_into_reset /
+    /// finalize_xof_reset_into / finalize_boxed_reset / Digest::finalize_reset / DynDigest::finalize_reset, (k / 8) % 4 the output length 0/1/32/100
     TraitFinalizeReset(u8),
     Clone,
     Swap,
@@ -131,16 +132,33 @@ pub fn check(c: &Case) -> Result<(), String> {
                     #[cfg(feature = "full")]
                     Op::TraitFinalizeReset(k) => {
                         use blake3::traits::digest as dg;
-                        let want = s.model.output().hash();
-                        let got: Vec<u8> = match k % 3 {
-                            0 => dg::FixedOutputReset::finalize_fixed_reset(&mut s.h).to_vec(),
+                        let want = s.model.output().hash().to_vec();
+                        // every resetting finalizer of the digest traits; the `_into` / boxed forms with output
+                        // lengths 0, 1, 32 and 100 (an empty output buffer must reset the hasher like any other)
+                        let n = [0usize, 1, 32, 100][(*k as usize / 8) % 4];
+                        let want_n = s.model.output().xof(0, n);
+                        let (got, want): (Vec<u8>, Vec<u8>) = match k % 8 {
+                            0 => (dg::FixedOutputReset::finalize_fixed_reset(&mut s.h).to_vec(), want),
                             1 => {
                                 let mut r = dg::ExtendableOutputReset::finalize_xof_reset(&mut s.h);
                                 let mut o = vec![0u8; 32];
                                 dg::XofReader::read(&mut r, &mut o);
-                                o
+                                (o, want)
                             }
-                            _ => dg::Mac::finalize_reset(&mut s.h).into_bytes().to_vec(),
+                            2 => (dg::Mac::finalize_reset(&mut s.h).into_bytes().to_vec(), want),
+                            3 => {
+                                let mut o = dg::Output::<blake3::Hasher>::default();
+                                dg::FixedOutputReset::finalize_into_reset(&mut s.h, &mut o);
+                                (o.to_vec(), want)
+                            }
+                            4 => {
+                                let mut o = vec![0u8; n];
+                                dg::ExtendableOutputReset::finalize_xof_reset_into(&mut s.h, &mut o);
+                                (o, want_n)
+                            }
+                            5 => (dg::ExtendableOutputReset::finalize_boxed_reset(&mut s.h, n).to_vec(), want_n),
+                            6 => (dg::Digest::finalize_reset(&mut s.h).to_vec(), want),
+                            _ => (dg::DynDigest::finalize_reset(&mut s.h).to_vec(), want),
                         };
                         eq_bytes(&format!("{}: output of the resetting finalizer", what), &got, &want)?;
                     }
@@ -291,7 +309,7 @@ fn op_strategy(max_abs: u32) -> BoxedStrategy<Op> {
         1 => Just(Op::Count),
         4 => Just(Op::Reset),
         1 => Just(Op::TraitReset),
-        2 => (0u8..3).prop_map(Op::TraitFinalizeReset),
+        3 => (0u8..32).prop_map(Op::TraitFinalizeReset),
         1 => Just(Op::Clone),
         1 => Just(Op::Swap),
     ]
